@@ -782,6 +782,28 @@ fn explore_attrs(idx: usize, e: &Entry, first: Option<usize>, thorough: bool, t:
             });
         }
     };
+    // many attributes: nine occurrences of the `multiple` member (order and count observable), one
+    // per attribute, under every rotation of the declared names, bare and with a foreign attribute
+    // after each
+    if first.is_none() && s.fields.iter().any(|f| s.eff_name(f) == "m" && f.multiple) || first.is_none() && s.fields.iter().any(|f| f.flatten) {
+        for n in [5usize, 8, 9, 17, 33] {
+            let texts: Vec<String> = (1..=n).map(|i| format!("m = {i}")).collect();
+            let items: Vec<Item> = (1..=n).map(|i| Item::nv("m", &i.to_string())).collect();
+            let base_src = format!("{prefix}#[{}({})] {suffix}", names[0], texts.join(", "));
+            let base_key = outcome_key(&(e.run)(&base_src));
+            t.states += 1;
+            t.evaluations += 1;
+            for rot in 0..names.len() {
+                let attrs: Vec<String> = texts.iter().enumerate().map(|(i, tx)| format!("#[{}({tx})]", names[(i + rot) % names.len()])).collect();
+                check(&attrs, &base_key, "one attribute per item", &items, t);
+                let with_foreign: Vec<String> = attrs.iter().flat_map(|a| [a.clone(), "#[doc = \"x\"]".to_string()]).collect();
+                check(&with_foreign, &base_key, "one attribute per item, foreign attributes between", &items, t);
+                let pairs: Vec<String> = texts.chunks(2).enumerate().map(|(i, c)| format!("#[{}({})]", names[(i + rot) % names.len()], c.join(", "))).collect();
+                check(&pairs, &base_key, "two items per attribute", &items, t);
+            }
+            t.hit("many_attributes");
+        }
+    }
     let lens: Vec<usize> = if first.is_none() { vec![0] } else { (1..=maxlen).collect() };
     for len in lens {
         let mut seq = vec![0usize; len];
